@@ -51,7 +51,11 @@ def is_long_date_spec(long_date: str) -> bool:
 
 def is_zid(zid: str) -> bool:
     """Returns True iff {zid} is a valid ZID."""
-    return len(zid) == 9 and is_short_date_spec(zid[:6]) and zid[6] == "#"
+    return (
+        len(zid) in (9, 10)
+        and is_short_date_spec(zid[:6])
+        and zid[6] == "#"
+    )
 
 
 def to_short_date_spec(date: dt.date) -> str:
